@@ -21,6 +21,29 @@ for mod in ['.', 'integration_tests']:
             status[ev['Package'] + '::' + ev['Test']] = ev['Action']
     p.wait()
 bad = sorted(t for t in want if status.get(t) != 'pass')
+# timing-sensitive tests can fail on a loaded machine: re-run the top-level tests of the failures alone, twice
+MOD = {'integration_tests': 'integration_tests'}
+for attempt in range(2):
+    if not bad:
+        break
+    tops = sorted({(t.split('::')[0], t.split('::')[1].split('/')[0]) for t in bad})
+    for pkg, top in tops:
+        if pkg.startswith('integration_tests'):
+            cwd, rel = os.path.join(repo, 'integration_tests'), './' + pkg[len('integration_tests'):].lstrip('/')
+        else:
+            cwd, rel = repo, './' + pkg[len('github.com/tikv/client-go/v2'):].lstrip('/')
+        p = subprocess.run(['go', 'test', '-mod=mod', '-json', '-vet=off', '-count=1', '-timeout', '10m', '-run', '^%s$' % top, rel],
+                           cwd=cwd, env=env, capture_output=True, text=True, errors='replace')
+        for line in p.stdout.splitlines():
+            try:
+                ev = json.loads(line)
+            except Exception:
+                continue
+            if ev.get('Test') and ev.get('Action') in ('pass', 'fail', 'skip'):
+                k = ev['Package'] + '::' + ev['Test']
+                if ev['Action'] == 'pass' or status.get(k) != 'pass':
+                    status[k] = ev['Action']
+    bad = sorted(t for t in want if status.get(t) != 'pass')
 print('stable_pass tests: %d, passed now: %d' % (len(want), len(want) - len(bad)))
 for t in bad:
     print('NOT-PASSING', t, status.get(t, 'missing'))
